@@ -249,3 +249,21 @@ def recv_endpoint(acks):
     except Exception:
         pass
     return _StandIn(protocol.Buffer(acks.append)), 'stand-in'
+
+
+def list_codec():
+    """a non-default codec whose decoded messages are Python lists of byte values: the empty message decodes to
+    [] (falsy), like {} / 0 / '' with a JSON codec"""
+    from grpclib.encoding.base import CodecBase
+
+    class ListCodec(CodecBase):
+        __content_subtype__ = 'bytelist'
+
+        def encode(self, message, message_type):
+            if not isinstance(message, list):
+                raise TypeError('list of byte values expected')
+            return bytes(message)
+
+        def decode(self, data, message_type):
+            return list(bytes(data))
+    return ListCodec()
